@@ -220,6 +220,13 @@ def gen_alias(quick, seed):
         'm = {"l": [1, 2, 3]}\ns = m["l"][1:]\ns[0] = 0\nprobe(m, s)',
         'a = [1]\nb = a\na = [2]\nprobe(a, b)',
         'a = {"p": {"q": 1}}\nb = a["p"]\na["p"]["q"] = 2\nprobe(b)\nb["r"] = 3\nprobe(a)',
+        # every evaluation of a literal is a fresh container (also the empty ones, also the same literal evaluated again)
+        'a = {}\na["k"] = 1\nb = {}\nprobe(a, b, len({}), "k" in {})\nadd_key(e, {})',
+        'a = [0]\na[0] = 1\nb = [0]\nprobe(a, b, [0])',
+        'r = [0, 0, 0]\nfor i = 0; i < 3; i = i + 1 {\nm = {}\nprobe(m)\nm["k"] = i\nr[i] = m\n}\nprobe(r)',
+        'r = [0, 0]\nfor i = 0; i < 2; i = i + 1 {\nl = [0, []]\nprobe(l)\nl[0] = i + 1\nr[i] = l\n}\nprobe(r)',
+        'for v in [1, 2] {\nm = {"n": 0, "e": {}}\nprobe(m)\nm["n"] = v\nm["e"]["x"] = v\n}\nprobe({}, {"n": 0, "e": {}})',
+        'a = {}\nb = a\nc = {}\nb["x"] = 1\nc["y"] = 2\nprobe(a, b, c)',
     ]
     for i, t in enumerate(fixed):
         out.append(ps("alias:%d" % i, t, tag="aliasing"))
@@ -231,9 +238,9 @@ def gen_alias(quick, seed):
             r = rng.random()
             v = rng.choice(names)
             if r < 0.25:
-                lines.append("%s = %s" % (rng.choice(names), rng.choice(["a", "b", "c", "a[1]", 'b["y"]', 'b["x"]', "[7]", '{"n": 1}', "a[:2]"])))
+                lines.append("%s = %s" % (rng.choice(names), rng.choice(["a", "b", "c", "a[1]", 'b["y"]', 'b["x"]', "[7]", '{"n": 1}', "a[:2]", "{}", "[]", "[0]"])))
             elif r < 0.55:
-                tgt = rng.choice(["a[0]", "a[1][0]", 'a[2]["k"]', 'b["y"][0]', 'b["x"][0]', "c[0]", "c[1]", 'b["z"]', "a[-1]"])
+                tgt = rng.choice(["a[0]", "a[1][0]", 'a[2]["k"]', 'b["y"][0]', 'b["x"][0]', "c[0]", "c[1]", 'b["z"]', "a[-1]", 'c["w"]', 'a["w"]'])
                 lines.append("%s = %s" % (tgt, rng.choice(["0", '"s"', "nil", "c", "[8]", "1.5"])))
             elif r < 0.7:
                 lines.append("add_key(k%d, %s)" % (j, v))
